@@ -197,6 +197,17 @@ impl<'a, 'b> PartialEq<Template<'b>> for Template<'a> {
             let bp = &b[bi];
 
             match (&ap.0, &bp.0) {
+                // Empty text doesn't contribute to the rendered output
+                (PartKind::Text { value: ref a }, _) if a.get().is_empty() => {
+                    ai += 1;
+
+                    continue;
+                }
+                (_, PartKind::Text { value: ref b }) if b.get().is_empty() => {
+                    bi += 1;
+
+                    continue;
+                }
                 (PartKind::Text { value: ref a }, PartKind::Text { value: ref b }) => {
                     // Compare bytes; fragment boundaries may not line up with char boundaries
                     let a = a.get().as_bytes();
